@@ -36,9 +36,7 @@ proof fn trunc_div_is_rust(a: int, b: int)
 def build(contracts):
     u = Unit('timedelta', contracts)
     u.raw(header(P.HEADER) + P.STD_SPECS + P.EXPECT + P.RUST_DIV)
-    for k in ['NANOS_PER_MICRO', 'NANOS_PER_MILLI', 'NANOS_PER_SEC', 'MICROS_PER_SEC', 'MILLIS_PER_SEC',
-              'SECS_PER_MINUTE', 'SECS_PER_HOUR', 'SECS_PER_DAY', 'SECS_PER_WEEK']:
-        u.const(F, k)
+    u.consts_all(F)
     u.struct(F, 'TimeDelta', expect_fields='struct TimeDelta { secs: i64, nanos: i32, }')
     u.raw(P.TD_VIEW + DURATION + LEMMAS)
     # MIN / MAX: the constants themselves are obligations (values from the property text: -/+(2^63-1) ms)
